@@ -109,6 +109,8 @@ def array_read(st, arr, idx):
         return SFloat(sel(h[0], full), sel(h[1], full))
     if arr.dt == "r":  # array of finite reals (finiteness is a declared invariant of the array)
         return SFloat(fl.FIN, sel(h, full), True)
+    if arr.dt == "s":
+        return SStr(sel(h, full))
     return sel(h, full)
 
 
@@ -174,6 +176,13 @@ def coerce_scalar(val, dt):
         return fl.F(val)
     if dt == "r":
         return (val if isinstance(val, SFloat) else fl.F(val if is_float_like(val) else to_int_like(val))).v
+    if dt == "s":
+        if isinstance(val, SStr):
+            return val.tok
+        if isinstance(val, str):
+            from .vals import intern_str
+            return z3.IntVal(intern_str(val))
+        raise Unsupported("a non-string stored into an array of strings")
     if dt == "i":
         if isinstance(val, bool):
             return z3.IntVal(int(val))
@@ -278,7 +287,9 @@ def fresh_of_type(st, name, ty, inputs=None):
     elif k == "ds":
         from .lazy import SDs, SData
         spec = t[1]
-        variables = {vn: SData(fresh_of_type(st, "%s[%s]" % (name, vn), vt, None), name=vn) for vn, vt in spec.get("vars", {}).items()}
+        dims = spec.get("dims", {})
+        variables = {vn: SData(fresh_of_type(st, "%s[%s]" % (name, vn), vt, None), name=vn, dims=dims.get(vn))
+                     for vn, vt in spec.get("vars", {}).items()}
         coords = {cn: SData(fresh_of_type(st, "%s.coords[%s]" % (name, cn), ct, None), name=cn) for cn, ct in spec.get("coords", {}).items()}
         attrs = {an: fresh_of_type(st, "%s.attrs[%s]" % (name, an), at, None) for an, at in spec.get("attrs", {}).items()}
         sizes = {}
